@@ -230,46 +230,112 @@ def run(db, chk):
                        extra={"unit": uname})
 
         # ---------------------------------------------------------------- T2
+        # interpreted: each public mutator is run on an object in the state the snapshot constructor
+        # leaves (it must throw before touching anything) and on one in the state the public
+        # constructor leaves (it must get past its guard) -- whatever member / type encodes the mode
+        from ..interp import Interp, World, Obj, Sym, ThrowEx, NOT_HANDLED, Frame
+        unit_ = db.units[uname]
+        frec = [r for r in unit_.records if r["bn"] == model.FLOW_GRAPH]
+        snap_ctor = [f for f in unit_.fns.values() if f.cls == model.FLOW_GRAPH and f.is_ctor and len(f.params) == 2
+                     and "bool" in f.type(f.params[1]["t"])]
+        pub_ctor = [f for f in unit_.fns.values() if f.cls == model.FLOW_GRAPH and f.is_ctor and len(f.params) == 2
+                    and "flow_operator_sequence" in f.type(f.params[1]["t"])]
+        if not frec or not snap_ctor or not pub_ctor:
+            raise AnalysisBroken("C16-T2: flow_graph record / constructors not found in %s" % uname)
+
+        class _Reached(Exception):
+            pass
+
+        class GuardWorld(World):
+            def before_call(self, it, f2, call, callee, frame):
+                if callee.cls == model.FLOW_GRAPH and (callee.is_const or any(n.get("k") == "throw" for n in walk(callee.body))):
+                    return NOT_HANDLED          # a guard helper of the facade itself
+                raise _Reached()
+
+            def external(self, it, f2, call, frame):
+                bn = call.get("bn", "") or ""
+                if call.get("k") == "construct" or bn.startswith("std::basic_string") or bn.startswith("std::operator"):
+                    return NOT_HANDLED
+                raise _Reached()
+
+        def state_after(ctor):
+            it = Interp(GuardWorld())
+            o = Obj(model.FLOW_GRAPH, {})
+            for fld in frec[0]["fields"]:
+                v = Sym("member", fld["n"])
+                if fld.get("init") is not None:
+                    try:
+                        v = it.rv(it.eval(fld["init"], Frame(ctor, o)))
+                    except (AnalysisBroken, _Reached):
+                        pass
+                o.fields[fld["n"]] = v
+            for ini in ctor.d.get("inits") or []:
+                if ini.get("field") and ini.get("init") is not None:
+                    try:
+                        v = it.rv(it.eval(ini["init"], Frame(ctor, o)))
+                        if isinstance(v, (bool, int)):
+                            o.fields[ini["field"]] = v
+                    except (AnalysisBroken, _Reached, ThrowEx):
+                        pass
+            return o
+        mutators = []
         for fn in db.fns(unit=uname, pred=lambda f: f.cls == model.FLOW_GRAPH and not f.is_ctor
                          and f.acc == "public" and not f.is_lambda):
-            def is_mutation(node, fn=fn):
+            def is_mutation(node):
                 bnm = node.get("bn", "")
                 name = bnm.split("::")[-1]
                 obj = node.get("obj")
                 if obj is not None and "m_impl_ptr" in pp(obj) and node.get("cls") == model.GRAPH_IMPL \
                         and not node.get("cm"):
-                    return name not in ("compute_basins", "pits")
+                    return name not in ("compute_basins", "pits")     # derived on demand, allowed on snapshots
                 pw = node.get("pw") or []
                 for i, a in enumerate(node.get("a", [])):
                     if i < len(pw) and pw[i] and "m_impl_ptr" in pp(a):
                         return True
                 return False
-            w = GuardWalker(fn, is_mutation)
-            w.run()
-            for node, ok in w.sites:
-                chk.ob("C16-T2", "%s: %s guarded by m_writeable [%s]" % (fn.name, pp(node)[:70], uname), ok,
-                       where=fn.loc(node), function=fn.bn, construct="mutation(%s)" % node.get("bn", "").split("::")[-1],
-                       detail="" if ok else "a snapshot graph (read-only) can be mutated through this call",
-                       extra={"unit": uname})
-        # m_writeable writers
+            if any(is_mutation(c) for c in calls(fn.body)):
+                mutators.append(fn)
+        if not mutators:
+            raise AnalysisBroken("C16-T2: no public mutator of flow_graph found in %s" % uname)
+        for fn in mutators:
+            verdicts = {}
+            for label, ctor in (("snapshot", snap_ctor[0]), ("writable", pub_ctor[0])):
+                it = Interp(GuardWorld(), max_steps=20000)
+                o = state_after(ctor)
+                args = [Sym("arg", p.get("n") or "a") for p in fn.params]
+                try:
+                    it.call_fn(fn, o, args)
+                    verdicts[label] = "returned"
+                except ThrowEx:
+                    verdicts[label] = "threw"
+                except _Reached:
+                    verdicts[label] = "passed the guard"
+                except AnalysisBroken:
+                    verdicts[label] = "passed the guard"
+            ok = verdicts["snapshot"] == "threw" and verdicts["writable"] != "threw"
+            chk.ob("C16-T2", "%s: refused on a snapshot graph (%s), allowed on a writable graph (%s) [%s]"
+                   % (fn.name, verdicts["snapshot"], verdicts["writable"], uname), ok, where=fn.ploc, function=fn.bn,
+                   construct="mutation-guard(%s)" % fn.name,
+                   detail="" if ok else ("a snapshot graph (read-only) can be mutated through this method"
+                                         if verdicts["snapshot"] != "threw" else "the method throws on a writable graph too"),
+                   extra={"unit": uname})
+        # the members that encode the mode: those the two constructors leave with different constants
+        sa, sb = state_after(snap_ctor[0]), state_after(pub_ctor[0])
+        mode_members = sorted(k for k in sa.fields if isinstance(sa.fields[k], (bool, int)) and
+                              isinstance(sb.fields.get(k), (bool, int)) and sa.fields[k] != sb.fields[k])
+        chk.ob("C16-T2", "the snapshot constructor leaves the graph in a mode distinct from the public constructor's "
+               "(members %s) [%s]" % (mode_members, uname), bool(mode_members), where=snap_ctor[0].ploc,
+               function=snap_ctor[0].bn, construct="ctor(mode)", extra={"unit": uname})
         bad_w = []
         for fn in db.fns(unit=uname, pred=lambda f: f.cls == model.FLOW_GRAPH):
-            s = eff.summary(fn)
-            for (k, p, h) in s.effects:
-                if k == "w" and member_of(p, ("this",)) == "m_writeable" and not fn.is_ctor:
+            s_ = eff.summary(fn)
+            for (k, p, h) in s_.effects:
+                if k == "w" and member_of(p, ("this",)) in mode_members and not fn.is_ctor:
                     bad_w.append(fn.name)
-        chk.ob("C16-T2", "m_writeable written only by constructors [%s]" % uname, not bad_w,
+        chk.ob("C16-T2", "the mode members %s are written only by constructors [%s]" % (mode_members, uname), not bad_w,
                where="fastscapelib/flow/flow_graph.hpp", function="fastscapelib::flow_graph",
-               construct="writers(m_writeable)", detail=("written by %s" % bad_w) if bad_w else "",
+               construct="writers(mode)", detail=("written by %s" % bad_w) if bad_w else "",
                extra={"unit": uname})
-        # snapshot constructor creates a read-only graph
-        for fn in db.fns(unit=uname, pred=lambda f: f.cls == model.FLOW_GRAPH and f.is_ctor
-                         and len(f.params) == 2 and "bool" in f.type(f.params[1]["t"])):
-            inits = {i.get("field"): i for i in fn.d.get("inits", [])}
-            ini = inits.get("m_writeable")
-            ok = ini is not None and ini.get("init") is not None and strip(ini["init"]).get("cv") is False
-            chk.ob("C16-T2", "snapshot constructor sets m_writeable = false [%s]" % uname, ok,
-                   where=fn.ploc, function=fn.bn, construct="ctor(m_writeable)", extra={"unit": uname})
     # ---------------------------------------------------------------- T6: the copy itself, interpreted
     save_copy_rule(db, chk)
     chk.absorb(db, "C19", {"C19-L2"}, "C16-T4", "basins / pits of a (snapshot) graph are recomputed from the tables it "
@@ -284,7 +350,7 @@ def save_copy_rule(db, chk):
     tokens: a single-direction snapshot (one receiver column) of a graph that is wider (another
     operator of the sequence is multiple-direction) and a multiple-direction snapshot; afterwards
     every table of the snapshot equals the source, column 0 for the single-direction snapshot"""
-    from ..interp import Interp, World, Obj, PyVec, Sym, ThrowEx, NOT_HANDLED, OutOfRange
+    from ..interp import SeqView, Interp, World, Obj, PyVec, Sym, ThrowEx, NOT_HANDLED, OutOfRange
     from .. import ndsym
     from ..ndsym import NDArr, is_arr, ShapeMismatch, IndexOutside
     from .C14 import ADIWorld, UninitUse
@@ -350,7 +416,7 @@ def save_copy_rule(db, chk):
                     return FlatPtr(o, tot)
                 if is_arr(o) and name == "storage" and not args:
                     return o
-                if isinstance(o, PyVec) and name == "operator=":
+                if isinstance(o, PyVec) and name == "operator=" and not isinstance(o, SeqView):
                     v = V(0)
                     o[:] = list(v)
                     return oref
@@ -394,8 +460,34 @@ def save_copy_rule(db, chk):
                     f[nm] = (tag == "src") if nm != "m_single_flow" else single
                 else:
                     f[nm] = "%s%s" % (tag, nm)
-            f["m_single_flow"] = single
-            return Obj(model.GRAPH_IMPL, f)
+            o = Obj(model.GRAPH_IMPL, f)
+            # the member(s) behind single_flow() are found by probing the getter, not by name or type
+            getter = [g for g in sfn.unit.fns.values() if g.cls == model.GRAPH_IMPL and g.name == "single_flow" and not g.params]
+            if not getter:
+                raise AnalysisBroken("C16-T6: flow_graph_impl::single_flow() not instantiated")
+            scalars = [fld["n"] for fld in rec[0]["fields"] if not fld.get("isref") and not is_arr(f[fld["n"]])
+                       and not isinstance(f[fld["n"]], PyVec)]
+            probe = Interp(SaveWorld(n))
+            for nm in scalars:
+                for val in (True, False, 0, 1):
+                    saved = o.fields[nm]
+                    o.fields[nm] = val
+                    try:
+                        r = probe.rv(probe.call_fn(getter[0], o, []))
+                    except (AnalysisBroken, ThrowEx):
+                        r = None
+                    if isinstance(r, (bool, int)) and bool(r) == bool(single):
+                        # does the getter really depend on this member?
+                        o.fields[nm] = (not val) if isinstance(val, bool) else 1 - val
+                        try:
+                            r2 = probe.rv(probe.call_fn(getter[0], o, []))
+                        except (AnalysisBroken, ThrowEx):
+                            r2 = None
+                        o.fields[nm] = val
+                        if isinstance(r2, (bool, int)) and bool(r2) != bool(single):
+                            return o
+                    o.fields[nm] = saved
+            raise AnalysisBroken("C16-T6: no member of flow_graph_impl makes single_flow() return %r" % single)
         for label, snap_single, src_cols in (("single-direction snapshot of a wider graph", True, WIDE),
                                              ("single-direction snapshot of a single-column graph", True, 1),
                                              ("multiple-direction snapshot", False, WIDE)):
